@@ -444,7 +444,7 @@ func c18partial(c *an.Ctx) {
 				why := ""
 				if pkg == "nsqadmin" {
 					// !ok => every return is Err{502}
-					q := &an.PathQ{Fn: fn, StartEdges: notOK, Sink: func(x ssa.Instruction, _ *an.PathState) bool {
+					q := &an.PathQ{Fn: fn, StartEdges: notOK, Sink: func(x ssa.Instruction, st *an.PathState) bool {
 						r, ok := x.(*ssa.Return)
 						if !ok {
 							return false
@@ -453,7 +453,7 @@ func c18partial(c *an.Ctx) {
 						if e == nil {
 							return true
 						}
-						code, _, isErr := httpErrOf(e)
+						code, _, isErr := httpErrOf(st.Selected(e))
 						return !isErr || code != 502
 					}}
 					if _, bad := q.Find(); bad {
@@ -478,16 +478,25 @@ func c18partial(c *an.Ctx) {
 						good, why = false, "a partial error is answered as a failure instead of a warning"
 					}
 					// ok => the message is recorded
-					rec := false
-					for _, e := range isOK {
-						for _, x := range e.To.Instrs {
-							if call, ok := isBuiltinCall(x, "append"); ok {
-								_ = call
-								rec = true
+					// (on every path from the ok edge to a success return or to the next upstream query)
+					q3 := &an.PathQ{Fn: fn, StartEdges: isOK,
+						Sink: func(x ssa.Instruction, st *an.PathState) bool {
+							if sinkSuccessReturn(x, st) {
+								return true
 							}
-						}
-					}
-					if !rec {
+							ci, isCall := x.(ssa.CallInstruction)
+							if !isCall {
+								return false
+							}
+							f := an.StaticCallee(ci)
+							return f != nil && f.Signature.Recv() != nil && strings.HasSuffix(f.Signature.Recv().Type().String(), "clusterinfo.ClusterInfo")
+						},
+						Cut: func(x ssa.Instruction, _ *an.PathState) bool {
+							_, isApp := isBuiltinCall(x, "append")
+							return isApp
+						}}
+					_, unrecorded := q3.Find()
+					if unrecorded {
 						good, why = false, "the partial error's message is not added to the warning list"
 					}
 				} else {
